@@ -78,6 +78,11 @@ class MessageExtractor:
                 code = node.code.code
             elif isinstance(node, parsetree.Expression):
                 code = node.code.code
+                if node.escapes:
+                    # the filter list may hold translatable calls as well;
+                    # the parentheses keep a multi-line expression one
+                    # logical line for the tokenizer
+                    code = "(%s), (%s,)" % (code, node.escapes)
             else:
                 continue
 
